@@ -28,6 +28,7 @@ type Obligation struct {
 	Keep   bool
 	ExtraFn func(rel map[string]bool, level int) []string
 	Levels  int // number of axiom-instance levels (1 = only level 0)
+	TimeoutS int // per-obligation solver timeout override (0 = default)
 }
 
 type VC struct {
